@@ -39,6 +39,7 @@ THEOREMS = [
     "Opacus.C07.compose_two_centre",
     "Opacus.C07.compose_two_comm",
     "Opacus.C07.compose_two_comm_domain",
+    "Opacus.C07.compose_heterogeneous_perm_invariant",
     "Opacus.C07.domain_shift_add",
     "Opacus.C07.compose_heterogeneous_exact",
     "Opacus.C07.compose_two_mass",
